@@ -17,3 +17,4 @@ print('setup: C simulators built for', bootstrap.REPO)
 /venv/bin/python -m ref.pngdec
 /venv/bin/python -m ref.taperef
 /venv/bin/python -m ref.snapdec
+/venv/bin/python -m ref.rzxref
